@@ -165,6 +165,78 @@ Definition hstep (s : st) (o : hop) : option st :=
 Definition hstep_total (s : st) (o : hop) : st := default s (hstep s o).
 Definition run (ops : list hop) (s : st) : st := fold_left hstep_total ops s.
 
+(** ---- user level: signed bank messages and the governance parameter that gates them ----
+    x/bank/keeper/msg_server.go (Haqq's bank message server):
+
+      Send       IsSendEnabledCoins; BlockedAddr(to) -> "is not allowed to receive funds"; then sendCoinsWithERC20:
+                 if the ERC20 module is disabled (x/erc20 parameter EnableErc20) plain SendCoins, otherwise per coin: a
+                 denomination with an enabled token pair moves as ERC20 tokens (subUnlockedERC20Tokens: everything the
+                 sender can spend of it is first converted = escrowed in the erc20 module account, then the contract's
+                 transfer is called: no bank coin reaches the recipient), any other denomination by SendCoins
+      MultiSend  BlockedAddr(out) for every output -> "is not allowed to receive transactions"; InputOutputCoins
+
+    The check of the recipient comes BEFORE the branch on the parameter: a send to a blocked address (every module
+    account, every precompile address) is refused whatever the value of the flag.  The flag is part of the state
+    and is changed by the parameter operation (MsgUpdateParams of x/erc20, signed by the governance authority).
+    Accounts are interned by the harness: users below 100, blocked addresses 100..199 (module accounts 100..112,
+    precompile addresses 120..125). *)
+Definition M_TRANSFER : N := 110.
+Definition M_ICA : N := 111.
+Definition M_VESTING : N := 112.
+Definition PRECOMPILE0 : N := 120.
+Definition blocked (a : N) : bool := (100 <=? a)%N && (a <? 200)%N.
+
+Record ust := mkust { ust_st : st; erc20_on : bool }.
+
+Inductive uop :=
+| UMod (o : hop)                                        (* an operation of a module (keeper level), as above *)
+| UParamErc20 (on : bool)                               (* x/erc20 MsgUpdateParams by the governance authority *)
+| UMsgSend (a c d : N) (x : Z) (paired : bool) (conv : Z)  (* signed MsgSend of x of d from a to c; paired: d has an enabled
+                                                           token pair; conv: what a could spend of d (converted first) *)
+| UMsgMultiSend (a d : N) (outs : list (N * Z)).        (* signed MsgMultiSend, one input, one denomination *)
+
+Definition total_out (outs : list (N * Z)) : Z := fold_right (fun (o : N * Z) acc => snd o + acc) 0 outs.
+Fixpoint s_pay_out (s : st) (a d : N) (outs : list (N * Z)) : option st :=
+  match outs with [] => Some s | (c, x) :: r => s1 ← s_send s a c d x; s_pay_out s1 a d r end.
+Definition any_blocked (outs : list (N * Z)) : bool := existsb (fun o : N * Z => blocked (fst o)) outs.
+
+Definition u_send (u : ust) (a c d : N) (x : Z) (paired : bool) (conv : Z) : option st :=
+  if blocked c then None else
+  if erc20_on u && paired then s_send (ust_st u) a M_ERC20 d conv
+  else s_send (ust_st u) a c d x.
+
+Definition u_multisend (s : st) (a d : N) (outs : list (N * Z)) : option st :=
+  if any_blocked outs then None else
+  if negb (forallb (fun o : N * Z => 0 <? snd o) outs) then None else     (* Coins.Validate of every output *)
+  if balance (bk s) a d <? total_out outs then None else                  (* the input is debited as a whole first *)
+  s_pay_out s a d outs.
+
+Definition ustep (u : ust) (o : uop) : option ust :=
+  match o with
+  | UMod o => s ← hstep (ust_st u) o; Some (mkust s (erc20_on u))
+  | UParamErc20 on => Some (mkust (ust_st u) on)
+  | UMsgSend a c d x paired conv => s ← u_send u a c d x paired conv; Some (mkust s (erc20_on u))
+  | UMsgMultiSend a d outs => s ← u_multisend (ust_st u) a d outs; Some (mkust s (erc20_on u))
+  end.
+
+Definition ustep_total (u : ust) (o : uop) : ust := default u (ustep u o).
+Definition urun (ops : list uop) (u : ust) : ust := fold_left ustep_total ops u.
+
+(** a message is signed by a user key; a module account has no key *)
+Definition signed_by_user (o : uop) : bool :=
+  match o with
+  | UMod _ | UParamErc20 _ => true
+  | UMsgSend a _ _ _ _ _ | UMsgMultiSend a _ _ => negb (blocked a)
+  end.
+Definition is_user_op (o : uop) : bool := match o with UMod _ => false | _ => true end.
+(** the messages every state refuses because of the recipient *)
+Definition rejects_blocked (o : uop) : bool :=
+  match o with
+  | UMsgSend _ c _ _ _ _ => blocked c
+  | UMsgMultiSend _ _ outs => any_blocked outs
+  | _ => false
+  end.
+
 (** ---- correspondence with the harness ---- *)
 (** observation: balances of the tracked accounts, supply and community pool per
     tracked denomination, as sparse sorted lists *)
@@ -189,9 +261,9 @@ Definition load_bal (l : list (N * N * Z)) : gmap N coins :=
 Definition load_coins (l : list (N * Z)) : coins := fold_left (fun m '(d, v) => zset m d v) l ∅.
 Definition load (o : obs) : st := mkst (mkbank (load_bal (o_bal o)) (load_coins (o_sup o))) (load_coins (o_pool o)) ∅.
 
-(** one case: tracked denominations, the state before, and a list of
-    (operation, did the implementation accept it, state after) *)
-Definition case := (list N * obs * list (hop * bool * obs))%type.
+(** one case: tracked denominations, the state before (the ERC20 module is enabled, as at genesis), and a
+    list of (operation, did the implementation accept it, state after) *)
+Definition case := (list N * obs * list (uop * bool * obs))%type.
 
 (** Operations whose failure conditions the model transcribes completely (a burn through the Haqq bank
     keeper from a module account that may burn: invalid coin list, or a coin not covered).  For these a
@@ -201,20 +273,23 @@ Definition case := (list N * obs * list (hop * bool * obs))%type.
 Definition burner (m : N) : bool := existsb (N.eqb m) [M_BONDED; M_NOTBONDED; M_GOV; M_LV; M_ERC20; M_EVM].
 Definition rejection_modelled (o : hop) : bool :=
   match o with HBurn m _ _ | HBurnCoins m _ => burner m | _ => false end.
-Definition accepts (s : st) (o : hop) : bool := match hstep s o with Some _ => true | None => false end.
+Definition urejection_modelled (o : uop) : bool := match o with UMod o => rejection_modelled o | _ => false end.
+Definition accepts (s : ust) (o : uop) : bool := match ustep s o with Some _ => true | None => false end.
 
-Fixpoint check_steps (ds : list N) (s : st) (h : list (hop * bool * obs)) : bool :=
+(** A message accepted by the implementation that the model refuses (a send to a blocked address, under either
+    value of the flag) is a mismatch; so is an accepted operation after which the balances differ. *)
+Fixpoint check_steps (ds : list N) (s : ust) (h : list (uop * bool * obs)) : bool :=
   match h with
   | [] => true
   | (o, ok, ob) :: r =>
-      if negb ok && rejection_modelled o && accepts s o then false   (* refused by the implementation only *)
+      if negb ok && urejection_modelled o && accepts s o then false   (* refused by the implementation only *)
       else
-      match (if ok then hstep s o else Some s) with
+      match (if ok then ustep s o else Some s) with
       | None => false                              (* accepted by the implementation, impossible in the model *)
-      | Some s' => if bool_decide (observe ds s' = ob) then check_steps ds s' r else false
+      | Some s' => if bool_decide (observe ds (ust_st s') = ob) then check_steps ds s' r else false
       end
   end.
-Definition check_case (c : case) : bool := let '(ds, o0, h) := c in check_steps ds (load o0) h.
+Definition check_case (c : case) : bool := let '(ds, o0, h) := c in check_steps ds (mkust (load o0) true) h.
 
 Fixpoint mismatches_from (i : nat) (cs : list case) : list nat :=
   match cs with
@@ -222,3 +297,16 @@ Fixpoint mismatches_from (i : nat) (cs : list case) : list nat :=
   | c :: r => if check_case c then mismatches_from (S i) r else i :: mismatches_from (S i) r
   end.
 Definition mismatches cs := mismatches_from 0 cs.
+
+(** Block histories (driver "invariants"): the parameter operations and the signed sends to blocked addresses of
+    a history on the real application, each with "did DeliverTx accept it".  The balances of a whole chain are not
+    part of this model; what is compared is the rule itself: a message the model refuses in EVERY state
+    ([rejects_blocked], see InvariantProofs.rejects_blocked_sound) must not have been accepted. *)
+Definition hcase := list (uop * bool).
+Definition hcheck (h : hcase) : bool := forallb (fun c : uop * bool => negb (snd c && rejects_blocked (fst c))) h.
+Fixpoint hmismatches_from (i : nat) (cs : list hcase) : list nat :=
+  match cs with
+  | [] => []
+  | c :: r => if hcheck c then hmismatches_from (S i) r else i :: hmismatches_from (S i) r
+  end.
+Definition hmismatches cs := hmismatches_from 0 cs.
